@@ -14,7 +14,7 @@ BOOL_OPTS = ["tracing/actor", "tracing/uncategorized", "tracing/categorized", "t
 
 @st.composite
 def cases(draw):
-    prog = draw(syncgen.programs(kinds=("mutex", "sem", "mailbox", "exec", "async"), max_actors=4, max_ops=8, min_actors=1,
+    prog = draw(syncgen.programs(kinds=("mutex", "mailbox", "exec", "async"), max_actors=4, max_ops=8, min_actors=1,
                                  platform=s4u.small_shared_platform()))
     # most programs should terminate: serve the unmatched puts and gets of every mailbox (kills and suspensions still produce deadlocks)
     if draw(st.integers(0, 5)) > 0:
@@ -28,7 +28,7 @@ def cases(draw):
     simple = st.one_of(st.tuples(st.just("sleep"), durations), st.tuples(st.just("exec"), st.sampled_from([0.0, 256.0, 1024.0, 4096.0]), st.just({})),
                        st.tuples(st.just("set_host"), st.sampled_from(HOSTS)), st.tuples(st.just("yield")),
                        st.tuples(st.just("io"), st.just("d2"), st.sampled_from([0, 1024, 8192]), st.sampled_from(["read", "write"]), st.just({})))
-    ntmpl = draw(st.integers(0, 2))
+    ntmpl = draw(st.sampled_from([0, 1, 1, 2]))
     prog["templates"] = [{"ops": [list(o) for o in draw(st.lists(simple, max_size=4))]} for _ in range(ntmpl)]
     names = [a["name"] for a in prog["actors"]]
     targets = names + [n + ".0" for n in names] + [n + ".1" for n in names[:1]]
@@ -37,7 +37,7 @@ def cases(draw):
         a = prog["actors"][draw(st.integers(0, len(names) - 1))]
         kinds = ["migrate", "migrate", "set_host", "set_host", "suspend", "resume", "kill", "sleep", "sleep", "exec", "mark", "host_var"]
         if ntmpl:
-            kinds += ["spawn", "spawn", "spawn"]
+            kinds += ["spawn"] * 6
         k = draw(st.sampled_from(kinds))
         if k == "spawn":
             op = ["spawn", draw(st.integers(0, ntmpl - 1)), draw(st.sampled_from(HOSTS))]
@@ -118,3 +118,88 @@ def run(case, cpu=20, wall=240, tracing=True):
     if log.done and log.lines[-1].get("ext") != EXT_VERSION:
         raise core.Inconclusive("stale driver: built from extension header %r, expected %r" % (log.lines[-1].get("ext"), EXT_VERSION))
     return log, text
+
+
+# ------------------------------------------------------------------------------------------------ MPI programs (drivers/mpi_interp, notes/MPI_INFRA.md)
+SMPI_OPTS = ["tracing/smpi/internals", "tracing/smpi/computing", "tracing/smpi/sleeping", "tracing/smpi/display-sizes", "tracing/smpi/group",
+             "tracing/basic", "tracing/uncategorized", "tracing/platform", "tracing/disable-destroy"]
+
+
+@st.composite
+def mpi_cases(draw):
+    np_ = draw(st.integers(1, 6))
+    size = 64
+    prog = [{"op": "buf", "name": "s", "size": size * 8 * np_, "fill": 1}, {"op": "buf", "name": "r", "size": size * 8 * np_, "fill": 0}]
+    n = draw(st.integers(1, 10))
+    nreq = 0
+    for _ in range(n):
+        k = draw(st.sampled_from(["barrier", "bcast", "reduce", "allreduce", "gather", "scatter", "allgather", "alltoall", "scan", "pair", "pair",
+                                  "iring", "iring", "sleep", "sleep"] * 2 + ["ring"]))
+        cnt = draw(st.sampled_from([1, 4, 16, 64]))
+        root = draw(st.integers(0, np_ - 1))
+        if k == "barrier":
+            prog.append({"op": "barrier"})
+        elif k == "bcast":
+            prog.append({"op": "bcast", "buf": "s", "count": cnt, "type": "INT", "root": root})
+        elif k in ("reduce", "allreduce", "scan"):
+            op = {"op": k, "sbuf": "s", "rbuf": "r", "count": cnt, "type": "INT", "mop": "SUM"}
+            if k == "reduce":
+                op["root"] = root
+            prog.append(op)
+        elif k in ("gather", "scatter", "allgather", "alltoall"):
+            op = {"op": k, "sbuf": "s", "scount": cnt, "stype": "INT", "rbuf": "r", "rcount": cnt, "rtype": "INT"}
+            if k in ("gather", "scatter"):
+                op["root"] = root
+            prog.append(op)
+        elif k == "ring" and np_ > 1:
+            prog.append({"op": "sendrecv", "sbuf": "s", "scount": cnt, "stype": "INT", "dest": {"@": [(r + 1) % np_ for r in range(np_)]}, "stag": 3,
+                         "rbuf": "r", "rcount": cnt, "rtype": "INT", "src": {"@": [(r - 1) % np_ for r in range(np_)]}, "rtag": 3})
+        elif k == "pair" and np_ > 1:
+            a, b = draw(st.permutations(list(range(np_))))[:2]
+            mode = draw(st.sampled_from(["std", "ssend"]))
+            prog.append({"op": "send", "only": [a], "buf": "s", "count": cnt, "type": "INT", "dest": b, "tag": 5, "mode": mode})
+            prog.append({"op": "recv", "only": [b], "buf": "r", "count": cnt, "type": "INT", "src": a, "tag": 5})
+        elif k == "iring" and np_ > 1:
+            rq, sq = "rq%d" % nreq, "sq%d" % nreq
+            nreq += 1
+            prog.append({"op": "irecv", "buf": "r", "count": cnt, "type": "INT", "src": {"@": [(r - 1) % np_ for r in range(np_)]}, "tag": 7, "req": rq})
+            prog.append({"op": "isend", "buf": "s", "count": cnt, "type": "INT", "dest": {"@": [(r + 1) % np_ for r in range(np_)]}, "tag": 7, "req": sq})
+            if draw(st.booleans()):
+                prog.append({"op": "sleep", "d": {"@": [draw(st.sampled_from([0.0, 0.001, 0.01])) for _ in range(np_)]}})
+            prog.append({"op": "waitall", "reqs": [rq, sq]})
+        else:
+            prog.append({"op": "sleep", "d": {"@": [draw(st.sampled_from([0.0, 0.001, 0.01, 0.1])) for _ in range(np_)]}})
+    opts = {}
+    for o in SMPI_OPTS:
+        if draw(st.integers(0, 3)) == 0:
+            opts[o] = "yes"
+    if draw(st.integers(0, 3)) == 0:
+        opts["tracing/precision"] = str(draw(st.sampled_from([0, 3, 9])))
+    coll = draw(st.sampled_from([None, None, "mpich", "ompi", "mvapich2"]))
+    return {"mpi": {"np": np_, "prog": prog}, "opts": opts, "selector": coll}
+
+
+def run_mpi(case, cpu=30, wall=300):
+    from . import mpi
+    path = core.write_tmp("", suffix=".trace")
+    try:
+        kase = dict(case["mpi"])
+        kase["cfg"] = ["tracing:yes", "tracing/filename:" + path, "tracing/smpi:yes"] + ["%s:%s" % kv for kv in sorted(case["opts"].items())]
+        if case.get("selector"):
+            kase["cfg"].append("smpi/coll-selector:" + case["selector"])
+        res = mpi.run(kase, cpu=cpu, wall=wall)
+        try:
+            with open(path, errors="replace") as f:
+                text = f.read()
+        except OSError:
+            text = ""
+    finally:
+        try:
+            os.unlink(path)
+        except OSError:
+            pass
+    return res, text
+
+
+def all_cases():
+    return st.one_of(cases(), cases(), mpi_cases())
